@@ -123,6 +123,25 @@ Theorem C08_consensus_timestamp_between_clocks : forall ver base ss t,
 Proof. exact consensus_timestamp_between_clocks. Qed.
 Print Assumptions C08_consensus_timestamp_between_clocks.
 
+(* selectors end to end: with at most f senders of arbitrary bytes, the consensus max-finalized timestamp (the bootstrap
+   of C09) and the v4 market status are values that some correct node's data source returned *)
+Theorem C08_consensus_max_finalized_from_a_correct_data_source : forall ver base ss ks f v,
+  ver = 2 \/ ver = 3 \/ ver = 4 -> senders_ok ss ->
+  (length (filter (fun s => negb (is_correct s)) ss) <= f)%nat ->
+  let txs := map (fun pt => (p_mfts (fst pt), snd pt)) (received ver base ss) in
+  max_finalized_ts_order ks (map fst txs) f = Ok v ->
+  exists n d, In (Correct n d) ss /\ ds_mfts d = Some v.
+Proof. exact consensus_max_finalized_from_a_correct_data_source. Qed.
+Theorem C08_consensus_market_status_from_a_correct_data_source : forall base ss ks f v,
+  senders_ok ss ->
+  (length (filter (fun s => negb (is_correct s)) ss) <= f)%nat ->
+  let txs := map (fun pt => (p_status (fst pt), snd pt)) (received 4 base ss) in
+  market_status_order ks (map fst txs) f = Ok v ->
+  exists n d, In (Correct n d) ss /\ ds_status d = Some v.
+Proof. exact consensus_market_status_from_a_correct_data_source. Qed.
+Print Assumptions C08_consensus_max_finalized_from_a_correct_data_source.
+Print Assumptions C08_consensus_market_status_from_a_correct_data_source.
+
 (* the fee a correct node sends: 100 x the integer nearest to baseUSDFee x 10^34 / price, non-negative for a
    non-negative base fee *)
 Theorem C08_calc_fee_nearest : forall price base fee, price <> 0 -> dzc base <> 0 ->
